@@ -73,12 +73,8 @@ TECHNIQUE = ("runtime monitoring of get_emodulus: differential oracle (independe
 WATCHDOG_S = {"quick": 400, "thorough": 3000}
 
 N_SHARDS = 16
-N_CASES = {"quick": 208, "thorough": 8000}
+N_CASES = {"quick": 208, "thorough": 6000}
 DS_EVERY = 8          # every 8th case reads ds["emodulus"] instead of calling directly
-#: events closer than this (normalised units) to an edge of their triangle may be located
-#: in either adjacent triangle by scipy's walk (its tolerance is 100 eps in barycentric
-#: units); the interpolant is continuous there, values may differ in the last bits
-EDGE_BAND = 1e-12
 
 
 def min_evals(tier):
@@ -291,6 +287,7 @@ def _judge_call(ctx, a, res, exc, model):
     ctx.count("events_ok_via_neighbour_triangle", cnt.get(3, 0))
     ctx.count("events_ok_via_flipped_diagonal", cnt.get(4, 0))
     ctx.count("events_model_gap_not_judged", cnt.get(5, 0))
+    ctx.count("events_nan_on_edge_of_sliver_triangle_not_judged", cnt.get(7, 0))
     ctx.count("events_in_ambiguous_triangles", int(ev["ambiguous"].sum()))
     ctx.count("events_located_by_brute_force", int((ev["located_by"] == 2).sum()))
     ctx.count(f"route[{route}]")
@@ -634,7 +631,7 @@ def _same(a, b):
         and bool(np.array_equal(a, b, equal_nan=True))
 
 
-def _law_exact(ctx, mon, got, want, desc, what, soft=None, slack=None, nev=None):
+def _law_exact(ctx, mon, got, want, desc, what, soft=None, nev=None):
     """Bit-level law (NaN == NaN).  Events flagged `soft` (on a triangle edge / vertex to
     within 1e-12, where either adjacent triangle may be picked by the point location, or
     in the hull band) are compared to 1e-12 + gradient slack, NaN-ness not judged."""
@@ -657,9 +654,9 @@ def _law_exact(ctx, mon, got, want, desc, what, soft=None, slack=None, nev=None)
     if not ne.any():
         return
     if soft is not None:
-        soft = np.asarray(soft).ravel()
+        soft, slack, nan_free = (np.asarray(v).ravel() for v in soft)
         g, w = got.ravel().astype(float), want.ravel().astype(float)
-        close = M.isclose_rel(g, w, 1e-12, np.asarray(slack).ravel()) | np.isnan(g) | np.isnan(w)
+        close = M.isclose_rel(g, w, 1e-12, slack) | (nan_free & (np.isnan(g) | np.isnan(w)))
         tolerated = ne & soft & close
         ctx.count(f"law_events_on_edge_or_band_equal_to_1e-12[{mon}]", int(tolerated.sum()))
         ne = ne & ~tolerated
@@ -826,7 +823,9 @@ def run_direct(ctx, idx):
     nontrivial = False
     loose = np.zeros(e0.size, dtype=bool)
     soft = np.ones(e0.size, dtype=bool)
+    nan_free = np.ones(e0.size, dtype=bool)
     slack = np.zeros(e0.size)
+    slack_soft = np.zeros(e0.size)
     if j0 is not None:
         v = j0["verdict"]
         ev = j0["ev"]
@@ -837,8 +836,15 @@ def run_direct(ctx, idx):
             | (v == 6)
         slack = 8 * M.POS_DELTA * ev["grad1"] * np.abs(np.where(np.isfinite(j0["scale"]),
                                                                 j0["scale"], 0.0))
+        # events on a triangle edge / vertex: either adjacent triangle may be picked by the
+        # point location; the interpolant is continuous there, so the values agree up to
+        # the rounding of the steepest adjacent triangle
         with np.errstate(invalid="ignore"):
-            soft = loose | ~(ev["edge_dist"] >= EDGE_BAND) & (ev["cls"] < 2)
+            on_edge = ~(ev["edge_dist"] >= M.EDGE_BAND) & (ev["cls"] < 2)
+        soft = loose | on_edge
+        nan_free = loose | (on_edge & (ev["hmin_nbhd"] < M.SLIVER_H))
+        slack_soft = 8 * M.POS_DELTA * ev["grad1_nbhd"] * np.abs(
+            np.where(np.isfinite(j0["scale"]), j0["scale"], 0.0))
         ctx.count("events_on_triangle_edge_or_vertex", int((soft & ~loose).sum()))
         # ---- exactness at LUT nodes
         got = e0.ravel()
@@ -871,13 +877,13 @@ def run_direct(ctx, idx):
         # laws for a single scalar event: repetition and the 1-element array form
         e1, _ = _call(ctx, dict(base))
         _law_exact(ctx, "mm_repeat", e1, e0, desc, "same scalar call repeated",
-                   soft=soft, slack=slack)
+                   soft=(soft, slack_soft, nan_free))
         kw = dict(base)
         kw["deform"] = np.array([base["deform"]])
         kw[xkey] = np.array([base[xkey]])
         e1, _ = _call(ctx, kw)
         _law_exact(ctx, "mm_batch", None if e1 is None else e1.reshape(()), e0, desc,
-                   "python scalars vs 1-element arrays", soft=soft, slack=slack)
+                   "python scalars vs 1-element arrays", soft=(soft, slack_soft, nan_free))
         return
 
     temp = visc_kw["temperature"]
@@ -910,17 +916,17 @@ def run_direct(ctx, idx):
         if law == "repeat":
             e1, _ = _call(ctx, dict(base))
             _law_exact(ctx, "mm_repeat", e1, e0, desc, "same call repeated after other calls",
-                       soft=soft, slack=slack)
+                       soft=(soft, slack_soft, nan_free))
         elif law == "perm":
             perm = rng.permutation(n)
             e1, _ = _call(ctx, sub(perm))
             _law_exact(ctx, "mm_permutation", e1, e_flat[perm], desc, "permuted batch",
-                       soft=soft[perm], slack=slack[perm])
+                       soft=(soft[perm], slack_soft[perm], nan_free[perm]))
         elif law == "alone":
             for i in rng.choice(n, size=min(n, 2), replace=False):
                 e1, _ = _call(ctx, sub(np.array([i])))
                 _law_exact(ctx, "mm_batch", e1, e_flat[[i]], dict(desc, event=int(i)),
-                           "event alone vs in the batch", soft=soft[[i]], slack=slack[[i]])
+                           "event alone vs in the batch", soft=(soft[[i]], slack_soft[[i]], nan_free[[i]]))
         elif law == "pyscalar":
             i = int(rng.integers(n))
             kw = dict(base)
@@ -929,7 +935,7 @@ def run_direct(ctx, idx):
             e1, _ = _call(ctx, kw)
             _law_exact(ctx, "mm_batch", None if e1 is None else np.asarray(e1).reshape(1),
                        e_flat[[i]], dict(desc, event=i), "event as python scalars vs in the batch",
-                       soft=soft[[i]], slack=slack[[i]])
+                       soft=(soft[[i]], slack_soft[[i]], nan_free[[i]]))
         elif law == "subset":
             k = int(rng.integers(1, n + 1))
             sel = np.sort(rng.choice(n, size=k, replace=False))
@@ -937,7 +943,7 @@ def run_direct(ctx, idx):
                 sel = np.concatenate([sel, sel[:3]])       # with repeated events
             e1, _ = _call(ctx, sub(sel))
             _law_exact(ctx, "mm_batch", e1, e_flat[sel], desc, "sub-batch vs full batch",
-                       soft=soft[sel], slack=slack[sel])
+                       soft=(soft[sel], slack_soft[sel], nan_free[sel]))
         elif law == "superset":
             m = int(rng.integers(1, 40))
             pn2, _, _ = gen_points(rng, lut, m)
@@ -953,7 +959,7 @@ def run_direct(ctx, idx):
                     kw["temperature"] = kw["temperature"].astype(flat_t.dtype)
             e1, _ = _call(ctx, kw)
             _law_exact(ctx, "mm_batch", None if e1 is None else e1[pos:pos + n], e_flat, desc,
-                       "batch embedded in a larger batch", soft=soft, slack=slack, nev=n)
+                       "batch embedded in a larger batch", soft=(soft, slack_soft, nan_free), nev=n)
         elif law == "rescale":
             s = float(rng.choice([0.5, 2.0, 1.5, 0.75, 1.3, 3.0]))
             kw = dict(base)
@@ -967,7 +973,8 @@ def run_direct(ctx, idx):
                 lo |= (j1["ev"]["cls"] == 1) | j1["ev"]["ambiguous"]
             else:
                 lo[:] = True
-            _law_close(ctx, "mm_rescale", e1, e0, 1e-10, slack, lo, dict(desc, s=s),
+            rt = max(1e-10, 20 * (j0["rtol"] if j0 is not None and j0["rtol"] > M.RTOL else 0))
+            _law_close(ctx, "mm_rescale", e1, e0, rt, slack, lo, dict(desc, s=s),
                        f"joint rescaling by s={s} ({xkey}*s^{lut.power}, L*s, px*s, Q*s^3)")
         elif law == "visc":
             k = float(rng.choice([0.5, 2.0, 3.0, 1.7, 10.0, 0.1]))
